@@ -172,6 +172,15 @@ def classify(ctx, l, exe, d):
     if lens:
         run_e2e(ctx, l, exe, lens, "classification")
     if len(ctx.violations) == before:
+        try:
+            sexe = ctx.cc_harness(DRV, os.path.join(ctx.tmp, "drv_chain_san%d" % l), l, san=True)
+            rc, outs, err = vlib.run_c([sexe], [d["op"]], env={"UBSAN_OPTIONS": "print_stacktrace=0"})
+            if rc != 0 and ("AddressSanitizer" in err or "runtime error" in err):
+                ctx.violation("trace:L%d:%s:memory" % (l, " ".join(t[:5])), "theta chain routine leaves its arrays / tables (sanitizer abort)",
+                              dict(level=l, op=d["op"][:300], sanitizer=err[-1200:], model=d["model"][:300], impl=d["impl"][:300]))
+        except vlib.BuildError as e:
+            ctx.log("classification: sanitizer build failed: %s" % str(e)[:200])
+    if len(ctx.violations) == before:
         ctx.violation("trace:L%d:%s" % (l, " ".join(t[:5])), "traversal trace of the theta chain routine differs from the model",
                       dict(level=l, op=d["op"][:200], impl=d["impl"][:400], model=d["model"][:400]), found=False)
 
